@@ -1,10 +1,104 @@
-"""Checker self-validation (mutants and benign twins).  Filled in per property."""
+"""Checker self-validation: every rule must fire on a variant with one instance broken (mutant) and stay silent on a
+behaviour-preserving rewrite (twin).  Variants are textual substitutions applied to a scratch copy of the analysed
+parts of the tree (never to /repo); the check runs against the copy through PI2_REPO.
+
+A variant that no longer applies (the anchor text changed) is reported as STALE and skipped - the self-test validates the
+checker, it must not fail because the repository moved on.  A mutant that is not caught, or a twin that raises an alarm,
+is a SELFTEST-FAIL (exit 2: the checker is wrong, not the repository).
+"""
 from __future__ import annotations
 
+import concurrent.futures as cf
+import json
+import os
+import shutil
+import subprocess
+import sys
+import tempfile
 
-def run_for_property(pid: str, jobs: int = 16) -> int:
-    return 0
+from ..core.report import REPO, VERIF
+
+PARTS = ['generation/src/proof_generation', 'rust/src', 'docs']
+
+
+def load_variants(pid: str | None = None):
+    from . import variants
+    out = []
+    for v in variants.VARIANTS:
+        if pid is None or v['property'] == pid:
+            out.append(v)
+    return out
+
+
+def scratch_copy() -> str:
+    d = tempfile.mkdtemp(prefix='pi2self-')
+    for part in PARTS:
+        src = os.path.join(REPO, part)
+        if os.path.isdir(src):
+            shutil.copytree(src, os.path.join(d, part), ignore=shutil.ignore_patterns('__pycache__', 'tests'))
+    return d
+
+
+def run_variant(v: dict) -> dict:
+    d = scratch_copy()
+    try:
+        for path, old, new in v['edits']:
+            fp = os.path.join(d, path)
+            if not os.path.exists(fp):
+                return {'id': v['id'], 'status': 'STALE', 'why': f'{path} missing'}
+            with open(fp, encoding='utf-8') as f:
+                s = f.read()
+            if s.count(old) != 1:
+                return {'id': v['id'], 'status': 'STALE', 'why': f'anchor text occurs {s.count(old)} times in {path}'}
+            with open(fp, 'w', encoding='utf-8') as f:
+                f.write(s.replace(old, new))
+        env = dict(os.environ, PI2_REPO=d, PI2_EVIDENCE_DIR=os.path.join(d, '_ev'), PYTHONDONTWRITEBYTECODE='1')
+        env.pop('VERIF_TIER', None)
+        q = subprocess.run([sys.executable, '-m', 'sa.main', v['property'], '--tier', 'quick'],
+                           capture_output=True, text=True, env=env, cwd=VERIF, timeout=600)
+        lines = [l.strip() for l in q.stdout.splitlines() if ': rule ' in l or l.startswith('ANALYSIS-ERROR')]
+        want = v.get('expect', 'fire')
+        if want == 'fire':
+            ok = q.returncode == 1 and (not v.get('names') or any(v['names'] in l for l in lines))
+        else:
+            ok = q.returncode == 0
+        return {'id': v['id'], 'status': 'OK' if ok else 'FAIL', 'rc': q.returncode, 'expect': want,
+                'lines': lines[:3], 'names': v.get('names')}
+    except subprocess.TimeoutExpired:
+        return {'id': v['id'], 'status': 'FAIL', 'rc': 'timeout', 'expect': v.get('expect', 'fire'), 'lines': []}
+    finally:
+        shutil.rmtree(d, ignore_errors=True)
+
+
+def run_all(variants: list[dict], jobs: int = 16) -> list[dict]:
+    with cf.ThreadPoolExecutor(max_workers=jobs) as ex:
+        return list(ex.map(run_variant, variants))
+
+
+def run_for_property(pid: str, jobs: int = 16, quiet: bool = False) -> dict:
+    vs = load_variants(pid)
+    res = run_all(vs, jobs)
+    summary = {'variants': len(res), 'mutants_caught': sum(1 for r, v in zip(res, vs) if r['status'] == 'OK' and v.get('expect', 'fire') == 'fire'),
+               'twins_silent': sum(1 for r, v in zip(res, vs) if r['status'] == 'OK' and v.get('expect') == 'silent'),
+               'stale': [r['id'] for r in res if r['status'] == 'STALE'],
+               'failed': [r for r in res if r['status'] == 'FAIL']}
+    if not quiet:
+        for r in res:
+            print(f'  selftest {r["status"]:5s} {r["id"]}' + (f' rc={r.get("rc")} expect={r.get("expect")} {r.get("lines")}' if r['status'] == 'FAIL' else '')
+                  + (f' ({r.get("why")})' if r['status'] == 'STALE' else ''))
+    return summary
 
 
 def main(extra: list[str], jobs: int = 16) -> int:
+    pids = [x.upper() for x in extra] or sorted({v['property'] for v in load_variants()})
+    bad = 0
+    for pid in pids:
+        print(f'[{pid}] self-validation')
+        s = run_for_property(pid, jobs)
+        print(f'[{pid}] {s["variants"]} variants: {s["mutants_caught"]} mutants caught, {s["twins_silent"]} twins silent, '
+              f'{len(s["stale"])} stale, {len(s["failed"])} FAILED')
+        bad += len(s['failed'])
+    if bad:
+        print(f'SELFTEST-FAIL {bad} variant(s)')
+        return 2
     return 0
